@@ -1,6 +1,7 @@
 import SctpVerif.Proofs.NetSys.LiveDrain
 import SctpVerif.Proofs.NetSys.LiveTaken
 import SctpVerif.Proofs.NetSys.LiveRoundOk
+import SctpVerif.Proofs.NetSys.LiveHonest
 import SctpVerif.Props.C01sel
 /-!
 # C02 on the composed model — the receiver's own SACKs make the sender-side progress theorems applicable
@@ -223,6 +224,44 @@ theorem C02_netsys_roundok_taken (P : Params) (ops : List Op) (hc : SenderProofs
     Taken P (run P (init P) ops) = true :=
   taken_of_roundOk P ops hc hN (snd_live P ops hc hf hest hsm) hfit (noab_of_reliable P ops hc hrel) hok hpos
 
+/-- **Honest runs are `InSync`.** For every NetSys run whose sender only ever processed SOUND SACKs (`Honest`: at the
+moment a SACK is processed its cumulative TSN is not ahead of the receiver's cumulative point and every TSN in its gap
+blocks is at or below that point or held in the receive queue — what `C05_assoc_sack_sound` proves of every SACK the real
+receiver emits, and it stays true of an old SACK for ever: delayed, duplicated, reordered, lost SACKs are all sound; the
+advertised window and the RACK / PTO marks are free), with fewer than 2^31 chunks written and in flight (`TsnOk`): the
+sender's cumulative ack point is not ahead of the receiver's cumulative point, and — the receive queue being pop-normalised
+(`hnorm`: the TSN right after the cumulative point is not held; true after every `handleData` that did not end in a
+reassembly error) — when the two coincide the lowest outstanding chunk is not gap-acked. Behind it the run invariant
+`NetSysLive.run_hl`: every gap-acked in-flight chunk of the sender has been accepted by the receiver ("accepted stays
+accepted": `step_rcv_got`; only a processed SACK raises `acked`, on chunks named by its blocks: `ackPhase_acked`). -/
+theorem C02_netsys_honest_insync (P : Params) (ops : List Op) (hc : SenderProofs.CfgOk P.cfg) (hN : chunksWritten P ops < 2^31)
+    (hts : SenderProofs.TsnOk (Sender.init P.cfg P.tsn P.peerRwnd) (sndOps P (init P).snd ops))
+    (hh : Honest P (init P) ops = true)
+    (hnorm : RecvQ.hasChunk (run P (init P) ops).rcv.pq ((run P (init P) ops).rcv.pq.cum + 1) = false) :
+    InSync (run P (init P) ops) = true :=
+  have hM : tsnsUsed P ops < 2^31 := Nat.lt_of_le_of_lt (tsnsUsed_le P ops) hN
+  insync_of_hl P ops hc hM (run_hl P ops hc hM hts hh) hnorm
+
+/-- **One healed round of an honest run**: `C02_netsys_roundok_taken` with `InSync` replaced by `Honest ops` and the
+pop-normalised receive queue. -/
+theorem C02_netsys_honest_taken (P : Params) (ops : List Op) (hc : SenderProofs.CfgOk P.cfg) (hf : SenderProofs.CfgFit P.cfg)
+    (hN : chunksWritten P ops < 2^31) (hrel : Reliable ops = true)
+    (hts : SenderProofs.TsnOk (Sender.init P.cfg P.tsn P.peerRwnd) (sndOps P (init P).snd ops))
+    (hh : Honest P (init P) ops = true)
+    (hest : (run P (init P) ops).snd.established = true)
+    (hsm : (run P (init P) ops).snd.inflight.length + (run P (init P) ops).snd.pending.length < 2^31)
+    (hst : (run P (init P) ops).rcv.state = 3#32) (hroom : Room (run P (init P) ops).rcv = true)
+    (hnorm : RecvQ.hasChunk (run P (init P) ops).rcv.pq ((run P (init P) ops).rcv.pq.cum + 1) = false)
+    (hhead : HeadOk P (run P (init P) ops) = true) (hpos : 0 < outstanding (run P (init P) ops)) :
+    Taken P (run P (init P) ops) = true := by
+  have hfit : SenderProofs.InfFit (run P (init P) ops).snd := by
+    rw [snd_run]
+    exact SenderProofs.run_inffit _ _ (SenderProofs.init_seq _ _ _) (SenderProofs.init_win _ _ _ hc)
+      (SenderProofs.init_inffit _ _ _) hts
+  have hsync := C02_netsys_honest_insync P ops hc hN hts hh hnorm
+  exact C02_netsys_roundok_taken P ops hc hf hN hrel hest hsm hfit
+    (by simp only [RoundOk, Bool.and_eq_true, beq_iff_eq]; exact ⟨⟨⟨hst, hroom⟩, hsync⟩, hhead⟩) hpos
+
 /-- **The healed rounds drain the sender — readable premises.** `C02_netsys_drains_partial` with the opaque `TakenN`
 replaced by `RoundOkN P n s`: at the start of each of the `n` rounds that has something outstanding, the receiver is
 established, has `Room`, the endpoints are `InSync`, and the first delivery is not answered with an ABORT. From every
@@ -351,6 +390,24 @@ example :
   let h := C02_netsys_drains_roundok PD ops0 9 (by unfold SenderProofs.CfgOk; decide) (by unfold SenderProofs.CfgFit; decide)
     (by decide) (by decide) (by decide) (by decide) infFit_ex (by decide) (by decide)
   ⟨h.2.1, h.2.2.1, h.2.2.2.1⟩
+
+-- non-vacuity of `C02_netsys_honest_insync` / `C02_netsys_honest_taken`: the example history is honest (its one SACK, though
+-- mutilated, names only what the receiver holds) and `TsnOk`
+set_option maxRecDepth 1000000 in
+example : InSync (run PD (init PD) ops0) = true :=
+  C02_netsys_honest_insync PD ops0 (by unfold SenderProofs.CfgOk; decide) (by decide) (by decide) (by decide) (by decide)
+
+set_option maxRecDepth 1000000 in
+example : Taken PD (run PD (init PD) ops0) = true :=
+  C02_netsys_honest_taken PD ops0 (by unfold SenderProofs.CfgOk; decide) (by unfold SenderProofs.CfgFit; decide)
+    (by decide) (by decide) (by decide) (by decide) (by decide) (by decide) (by decide) (by decide) (by decide) (by decide) (by decide)
+
+-- test: a run that is NOT honest — the sender is handed a SACK for TSN 2^32−2 that the receiver never got — is not `InSync`
+set_option maxRecDepth 1000000 in
+example :
+    let bad := [Op.snd (.openS 1 false 0 0 0), .write 1 51, .snd (.gather Sender.freeOracle [0, 0, 0]),
+      .snd (.sack 4294967294#32 65536 [] [])]
+    Honest PD (init PD) bad = false ∧ InSync (run PD (init PD) bad) = false := by decide
 
 -- non-vacuity of `C02_netsys_delivered_prefix`
 set_option maxRecDepth 1000000 in
